@@ -13,7 +13,7 @@ use std::sync::{Arc, Mutex};
 pub fn def() -> PropDef {
     PropDef {
         id: "C17",
-        rule: "histories: for a corpus of (function, argument) items over parse/uncompress/compress/rename/RR::from_string/raw_name_from_str/query/insert_rr, the result of every item computed in a fresh process is the baseline; every ordered pair (and, thorough, triple) g(y); f(x) run back to back on one thread, and every ordered triple of calls of the same function over up to 14 arguments each, must reproduce the baselines. schedules: 2 (thorough: also 3) real threads each running one item with the library's yield points (per name emitted / copied / replaced, per record parsed) as scheduling points, every interleaving with at most 2 (thorough 3) preemptions; randomness: empty()/query() twice differ at most in the id. supplementary, outside the exhaustive claim: the concurrent items on 4 free-running threads (sampling; reaches windows without a yield point). distinct classes = (kind, function pair, outcome kinds)",
+        rule: "histories: for a corpus of (function, argument) items over parse/uncompress/compress/rename/RR::from_string/raw_name_from_str/query/insert_rr/set_raw_name, the result of every item computed in a fresh process is the baseline; every ordered pair (and, thorough, triple) g(y); f(x) run back to back on one thread, and every ordered triple of calls of the same function over up to 14 arguments each, must reproduce the baselines. schedules: 2 (thorough: also 3) real threads each running one item with the library's yield points (per name emitted / copied / replaced, per record parsed) as scheduling points, every interleaving with at most 2 (thorough 3) preemptions; randomness: empty()/query() twice differ at most in the id. supplementary, outside the exhaustive claim: the concurrent items on 4 free-running threads (sampling; reaches windows without a yield point). distinct classes = (kind, function pair, outcome kinds)",
         run,
         replay,
         bounds: |t| json!({"corpus_items": items().len(), "concurrent_items": conc_items().len(), "history_length": t.pick(2, 3), "threads": t.pick(vec![2], vec![2, 3]), "preemption_bound": t.pick(2, 3), "max_executions_per_tuple": 30000}),
@@ -46,6 +46,8 @@ pub enum Item {
     Query(Vec<u8>),
     /// parse the packet, insert the question b.a/A/IN (or, with a question present, one more answer), return bytes
     Insert(Vec<u8>),
+    /// parse the packet, give its first answer this raw name, return bytes
+    SetName(Vec<u8>, Vec<u8>),
 }
 
 impl Item {
@@ -59,6 +61,7 @@ impl Item {
             Item::NameFromStr(..) => "raw_name_from_str",
             Item::Query(_) => "query",
             Item::Insert(_) => "insert_rr",
+            Item::SetName(..) => "set_raw_name",
         }
     }
     fn to_json(&self) -> Value {
@@ -71,6 +74,7 @@ impl Item {
             Item::NameFromStr(t, z) => json!({"f": "raw_name_from_str", "x": hex(t), "z": z.as_ref().map(|z| hex(z))}),
             Item::Query(t) => json!({"f": "query", "x": hex(t)}),
             Item::Insert(x) => json!({"f": "insert_rr", "x": hex(x)}),
+            Item::SetName(x, n) => json!({"f": "set_raw_name", "x": hex(x), "t": hex(n)}),
         }
     }
     fn from_json(v: &Value) -> Item {
@@ -83,6 +87,7 @@ impl Item {
             "raw_name_from_str" => Item::NameFromStr(h("x"), v["z"].as_str().map(unhex)),
             "query" => Item::Query(h("x")),
             "insert_rr" => Item::Insert(h("x")),
+            "set_raw_name" => Item::SetName(h("x"), h("t")),
             _ => Item::FromString(v["text"].as_str().unwrap_or("").to_string()),
         }
     }
@@ -139,6 +144,19 @@ fn eval_inner(it: &Item) -> String {
                     r#gen::RR::new_question(b"b.a", Type::A, Class::IN).and_then(|rr| p.insert_rr(Section::Question, rr))
                 } else {
                     p.insert_rr_from_string(Section::Answer, "b.a. 7 IN A 1.2.3.4")
+                };
+                match r {
+                    Ok(()) => format!("ok:{}", hex(p.packet())),
+                    Err(e) => format!("err:{}:{}", e, hex(p.packet())),
+                }
+            }
+            Err(e) => format!("perr:{}", e),
+        },
+        Item::SetName(x, n) => match crate::subj::parse(x) {
+            Ok(mut p) => {
+                let r = match p.into_iter_answer() {
+                    Some(mut it) => it.set_raw_name(n).map_err(|e| e.to_string()),
+                    None => Err("no answer".to_string()),
                 };
                 match r {
                     Ok(()) => format!("ok:{}", hex(p.packet())),
@@ -289,6 +307,17 @@ pub fn items() -> Vec<Item> {
         v.push(Item::Uncompress(p.clone()));
         v.push(Item::Rename(p.clone(), nm("k"), nm("nomatch"), false));
         v.push(Item::Parse(p));
+    }
+    // owner-name changes with names that a weak hash cannot tell apart: a valid name and an invalid one of the
+    // same length whose bytes differ by (+1, -31) or (+1, -33) in two neighbouring positions (the classic
+    // collisions of h*31+c and h*33+c), and case twins
+    {
+        let mut m = base_msg(&nm("b.a"), T_A, true);
+        m.an.push(a_rec(&nm("b.a"), 1, [1, 2, 3, 4]));
+        let host = encode(&m, Strategy::Max);
+        for n in [&[3u8, b'a', b'M', b'c', 3, b'c', b'o', b'm', 0][..], &[3, b'b', b'.', b'c', 3, b'c', b'o', b'm', 0], &[3, b'a', b'O', b'c', 3, b'c', b'o', b'm', 0], &[3, b'b', b'.', b'c', 3, b'c', b'o', b'm', 0], &[3, b'A', b'm', b'C', 3, b'c', b'o', b'm', 0], &[3, b'a', b'{', b'c', 3, b'c', b'o', b'm', 0], &[3, b'b', b'\\', b'c', 3, b'c', b'o', b'm', 0]] {
+            v.push(Item::SetName(host.clone(), n.to_vec()));
+        }
     }
     // insertion into packets with special transaction ids (0, 0xffff), with and without a question
     for id in [0u16, 0xffff, 0x1234] {
